@@ -163,8 +163,28 @@ def _p_active(mk):
     return {"time_derivative_spectrum": mk.array("dEdt", (nf, nd)), "generation": mk.array("G", (nf, nd)), "spectral_grid": _grid(mk, nf, nd)}
 
 
+def _native_active(kw, inst):
+    import numpy as np
+    from contracts.C08 import _typed
+    out = _typed(kw)
+    for k in ("time_derivative_spectrum", "generation"):
+        out[k] = np.ascontiguousarray(out[k], dtype="float64")
+    return out
+
+
+def _wit_active():
+    import numpy as np
+    rng = np.random.default_rng(5)
+    nf, nd = 6, 8
+    G = rng.normal(0, 1, (nf, nd))
+    G[rng.random((nf, nd)) < 0.4] = 0.0                    # bins without wind input: exactly zero
+    g = {"radian_frequency": np.linspace(0.3, 3, nf), "radian_direction": np.linspace(0, 2 * np.pi, nd, endpoint=False),
+         "frequency_step": rng.uniform(0.01, 0.05, nf), "direction_step": rng.uniform(5, 15, nd)}
+    return ("", _native_active({"time_derivative_spectrum": rng.normal(0, 1, (nf, nd)), "generation": G, "spectral_grid": g}, ""))
+
+
 active_region = Contract(
-    WI + "spectral_time_derivative_in_active_region", params=_p_active,
+    WI + "spectral_time_derivative_in_active_region", params=_p_active, native=_native_active, witness=[_wit_active],
     requires=[("dims", lambda a: And(a.generation.shape[0] >= 0, a.generation.shape[1] >= 0))],
     ensures=[("rate_of_change_integrated_where_input_is_positive", lambda a, r: eq(r, Sum(0, a.generation.shape[0], lambda i: Sum(
         0, a.generation.shape[1], lambda j: If(a.generation[i, j] > 0, a.time_derivative_spectrum[i, j] * a.spectral_grid["direction_step"][j]
